@@ -25,6 +25,8 @@ def run(rep, facts, tier):
     GD.check_gadget_group_ops(rep, cfg, "C13")
     GD.check_eq_select(rep, cfg)
     GD.check_sign_gadget(rep, cfg)
+    rep.floor("gadget_identity_predicates", GD.check_gadget_identity_predicates(rep, cfg), 2)
+    rep.floor("gadget_default_methods", GD.check_gadget_default_set(rep, cfg), 30)
     GD.isqrt_hint(rep, cfg)
     GD.alloc_modes(rep, cfg, "C13")
     GD.lazy_typestate(rep, cfg)
